@@ -1,5 +1,6 @@
 import PqModel.Generated.Facts
 import PqModel.EncEmit
+import PqModel.AadSites
 
 /-! # C18 — the write sites of the encryption-relevant functions of writer.go are the ones the
     leak model `EncEmit.emit` is built from
@@ -101,5 +102,147 @@ theorem every_site_is_modelled :
     encWriteSites.all (fun s =>
       kinds.any (fun c => siteOf true c == s.name || siteOf false c == s.name) || transport.contains s.name ||
       s.name == "writer.writeFileFooter:encoder.Encode(&w.fileMetaData)") = true := by decide
+
+/-! ## family `aadsites`: the call sites of `makeAAD`, their argument order, and the assignments
+    to the fields the AAD is built from
+
+The generated tables are turned into the vocabulary of the model by three reviewed dictionaries
+(module-type constant → `ModType`, argument text → `Role`, prefix/identifier expression →
+`Holder`); an argument text the dictionaries do not know, a call site that appears, disappears or
+changes its argument order makes `aad_sites_match_model` fail. -/
+section aadsites
+open PqModel.Aad
+
+/-- module-type constants of encrypt.go: name, value as written, module type of the model -/
+def constTable : List (String × String × ModType) := [
+  ("footerModule", "0", .footer), ("columnMetaDataModule", "1", .columnMeta), ("dataPageBodyModule", "2", .dataPage),
+  ("dataPageHeaderModule", "3", .dataPageHeader), ("dictPageBodyModule", "4", .dictPage), ("dictPageHeaderModule", "5", .dictPageHeader),
+  ("bloomFilterHdrModule", "6", .bloomHeader), ("bloomFilterBitsModule", "7", .bloomBits), ("columnIndexModule", "8", .columnIndex),
+  ("offsetIndexModule", "9", .offsetIndex)]
+
+def digit : Nat → String
+  | 0 => "0" | 1 => "1" | 2 => "2" | 3 => "3" | 4 => "4" | 5 => "5" | 6 => "6" | 7 => "7" | 8 => "8" | 9 => "9" | _ => "?"
+
+/-- encrypt.go defines exactly these constants, with the values `ModType.code` mirrors -/
+theorem module_constants_expected :
+    aadModuleConsts = constTable.map (fun x => (x.1, x.2.1)) ∧
+    constTable.all (fun x => x.2.1 == digit x.2.2.code) = true := by decide
+
+def constOf (name : String) : Option ModType :=
+  (constTable.find? (fun x => x.1 == name)).map (·.2.2)
+
+/-- what an ordinal argument carries. The texts are the arguments as factgen prints them, local
+    variables annotated with their definitions — which is what tells `int16(i)` over row groups
+    from `int16(i)` over columns. -/
+def roleOfArg : String → Option Role
+  | "c.rowGroupOrdinal" | "d.rowGroupOrdinal" | "rg.Ordinal"
+  | "int16(i{range w.columnIndexes})" | "int16(i{range w.offsetIndexes})"
+  | "int16(rowGroupIndex{len(w.rowGroups)})"
+  | "int16(i{param 0 of func literal in forEachColumnChunk(...)})" => some .rg
+  | "c.columnOrdinal" | "d.columnOrdinal"
+  | "int16(j{range columnIndexes})" | "int16(j{range offsetIndexes})"
+  | "int16(i{range rg.columns})" | "int16(colIdx{range rg.Columns})"
+  | "int16(j{param 1 of func literal in forEachColumnChunk(...)})" => some .col
+  | "pageOrd{int16(c.numPages)}" | "pageOrd{range int16(c.numPages)}" | "d.dataPageOrd" => some .page
+  | "0" => some .zero
+  | _ => none
+
+def rolesOfArgs : List String → Option (List Role)
+  | [] => some []
+  | a :: as => match roleOfArg a, rolesOfArgs as with
+    | some r, some rs => some (r :: rs)
+    | _, _ => none
+
+/-- where prefix and identifier are read from; the two must come from the same object -/
+def holderOf (pfx fu : String) : Option Holder :=
+  match pfx, fu with
+  | "w.encryption.cfg.AadPrefix", "w.encryption.fileUnique" => some .writerState
+  | "enc.cfg.AadPrefix", "enc.fileUnique" => some .writerState
+  | "c.aadPrefix", "c.fileUnique" => some .columnWriter
+  | "aadPrefix{algo.AadPrefix|algo.AadPrefix}", "fileUnique{algo.AadFileUnique|algo.AadFileUnique}" => some .cryptoMeta
+  | "f.aadPrefix", "f.fileUnique" => some .file
+  | "c.file.aadPrefix", "c.file.fileUnique" => some .file
+  | "d.aadPrefix", "d.fileUnique" => some .pages
+  | _, _ => none
+
+/-- who the caller is, by function -/
+def partyOf : String → Option Party
+  | "writer.go:writer.writeFileFooter" | "writer.go:writer.writeRowGroup" | "writer.go:ColumnWriter.writeBloomFilter"
+  | "writer.go:ColumnWriter.writeDataPage" | "writer.go:ColumnWriter.writeDictionaryPage" => some .writerSeal
+  | "writer.go:ColumnWriter.flushFilterPages" => some .writerReopen
+  | "file.go:OpenFile" | "file.go:File.ReadPageIndex" | "file.go:File.decryptAllColumnMetadata" => some .readerEager
+  | "file.go:FileColumnChunk.readColumnIndexFrom" | "file.go:FileColumnChunk.readOffsetIndex"
+  | "file.go:FileColumnChunk.readBloomFilter" => some .readerLazy
+  | "file.go:FilePages.readDictionary" | "file.go:FilePages.readEncryptedPage" => some .readerPages
+  | _ => none
+
+/-- a generated call site in the vocabulary of the model: one row per branch alternative -/
+def rowsOf (s : AadSite) : List (Option Site) :=
+  s.alts.map (fun a =>
+    match partyOf s.fn, holderOf s.pfx s.fu, constOf a.1, rolesOfArgs a.2 with
+    | some p, some h, some t, some rs => some ⟨s.fn, p, h, t, rs⟩
+    | _, _, _, _ => none)
+
+/-- THE TIE: the call sites of `makeAAD` in the source, with the order of their arguments, are
+    exactly the rows of `Aad.sites`, in order. -/
+theorem aad_sites_match_model : aadSites.flatMap rowsOf = sites.map some := by decide
+
+/-- … consequently every call site in the source passes `(row group, column[, page | 0])` in that
+    order — the statement `Props/C18Sites` builds on. -/
+theorem source_sites_pass_roles_in_order :
+    (aadSites.flatMap rowsOf).all (fun r => match r with | some s => s.roles == s.t.roles | none => false) = true := by
+  rw [aad_sites_match_model]; decide
+
+/-- the assignments to the AAD fields in the reviewed source. Right column: the definition of
+    `Aad.lean` that mirrors the row. -/
+def expectedAssigns : List AadAssign := [
+  ⟨"writer.go:newConcurrentRowGroupWriter", "columnOrdinal", "c.columnOrdinal = int16(i)"⟩,          -- column identity (`col` of upage/emitCol)
+  ⟨"writer.go:newConcurrentRowGroupWriter", "aadPrefix", "c.aadPrefix = w.encryption.cfg.AadPrefix"⟩, -- constant configuration
+  ⟨"writer.go:newConcurrentRowGroupWriter", "awaitOrdinal", "c.awaitOrdinal = true"⟩,                -- winit.crg: rgEmpty 0 none true (no ordinal, NO identifier)
+  ⟨"writer.go:newWriter", "columnOrdinal", "c.columnOrdinal = int16(i)"⟩,
+  ⟨"writer.go:newWriter", "rowGroupOrdinal", "c.rowGroupOrdinal = 0"⟩,                               -- winit.main.colRg = 0
+  ⟨"writer.go:newWriter", "fileUnique", "c.fileUnique = enc.fileUnique"⟩,                            -- winit.main.colFu = some 0
+  ⟨"writer.go:newWriter", "aadPrefix", "c.aadPrefix = enc.cfg.AadPrefix"⟩,
+  ⟨"writer.go:writer.reset", "rowGroupOrdinal", "c.rowGroupOrdinal = 0"⟩,                            -- wreset: rgEmpty 0 …
+  ⟨"writer.go:writer.reset", "fileUnique", "c.fileUnique = w.encryption.fileUnique"⟩,                -- wreset: … (some (gen+1)); absent in wresetNoHandover
+  ⟨"writer.go:writer.writeRowGroup", "rowGroupOrdinal", "c.rowGroupOrdinal = nextOrdinal"⟩,          -- wflush / wcommit: rgEmpty (nrg+1) …
+  ⟨"writer.go:writer.writeRowGroup", "awaitOrdinal", "c.awaitOrdinal = rg != w.currentRowGroup"⟩,    -- wflush: await false; wcommit: await true
+  ⟨"writer.go:writer.writeRowGroup", "rowGroupOrdinal", "c.rowGroupOrdinal = nextOrdinal"⟩,          -- wcommit (fixed): main.colRg := nrg+1
+  ⟨"writer.go:writer.writeRowGroup", "rowGroupOrdinal", "c.rowGroupOrdinal = int16(rowGroupIndex)"⟩, -- rgPrep: colRg := rgi
+  ⟨"writer.go:writer.writeRowGroup", "fileUnique", "c.fileUnique = w.encryption.fileUnique"⟩,        -- rgPrep: colFu := some gen
+  ⟨"writer.go:writer.writeRowGroup", "awaitOrdinal", "c.awaitOrdinal = false"⟩,                      -- rgPrep: await := false
+  ⟨"file.go:OpenFile", "fileUnique", "f.fileUnique = fileUnique"⟩,                                   -- Holder.file := Holder.cryptoMeta (encrypted footer)
+  ⟨"file.go:OpenFile", "aadPrefix", "f.aadPrefix = aadPrefix"⟩,
+  ⟨"file.go:OpenFile", "fileUnique", "f.fileUnique = fileUnique"⟩,                                   -- the same, plaintext footer
+  ⟨"file.go:OpenFile", "aadPrefix", "f.aadPrefix = aadPrefix"⟩,
+  ⟨"file.go:FileRowGroup.init", "columnOrdinal", "columnOrdinal: int16(i)"⟩,                         -- Chunk.col
+  ⟨"file.go:FileRowGroup.init", "rowGroupOrdinal", "rowGroupOrdinal: rowGroup.Ordinal"⟩,             -- Chunk.rg
+  ⟨"file.go:FilePages.init", "fileUnique", "fileUnique: c.file.fileUnique"⟩,                         -- Holder.pages := Holder.file
+  ⟨"file.go:FilePages.init", "aadPrefix", "aadPrefix: c.file.aadPrefix"⟩,
+  ⟨"file.go:FilePages.init", "rowGroupOrdinal", "rowGroupOrdinal: c.rowGroupOrdinal"⟩,
+  ⟨"file.go:FilePages.init", "columnOrdinal", "columnOrdinal: c.columnOrdinal"⟩,
+  ⟨"file.go:FilePages.init", "dataPageOrd", "dataPageOrd: 0"⟩,                                       -- rinit: ord := 0
+  ⟨"file.go:FilePages.init", "dictPagePending", "dictPagePending: f.dictOffset > 0"⟩,                -- rinit: dictPending := hasDict
+  ⟨"file.go:FilePages.readEncryptedPage", "dictPagePending", "d.dictPagePending = false"⟩,           -- radvance, dictionary branch
+  ⟨"file.go:FilePages.readEncryptedPage", "dataPageOrd", "d.dataPageOrd++"⟩,                         -- radvance, data branch
+  ⟨"file.go:FilePages.SeekToRow", "dataPageOrd", "f.dec.dataPageOrd = 0"⟩,                           -- rstep seekNoIndex
+  ⟨"file.go:FilePages.SeekToRow", "dictPagePending", "f.dec.dictPagePending = false"⟩,
+  ⟨"file.go:FilePages.SeekToRow", "dataPageOrd", "f.dec.dataPageOrd = int16(target)"⟩,               -- rstep seekIndexed
+  ⟨"file.go:FilePages.SeekToRow", "dictPagePending", "f.dec.dictPagePending = false"⟩
+]
+
+/-- the fields the AAD is built from are assigned exactly where the state machines of `Aad.lean`
+    change them: a dropped, added or changed assignment breaks the build -/
+theorem aad_assignments_expected : aadAssigns = expectedAssigns := by decide
+
+/-- in particular `reset` hands BOTH the ordinal and the new identifier to the column writers
+    (`wreset`; compare `wresetNoHandover` and `C18.reset_must_hand_over_identifier`), and a row
+    group writer of `BeginRowGroup` is given neither before `writeRowGroup` -/
+theorem reset_and_begin_assignments :
+    (aadAssigns.filter (fun a => a.fn == "writer.go:writer.reset")).map (·.field) = ["rowGroupOrdinal", "fileUnique"] ∧
+    (aadAssigns.filter (fun a => a.fn == "writer.go:newConcurrentRowGroupWriter")).map (·.field) = ["columnOrdinal", "aadPrefix", "awaitOrdinal"] := by
+  decide
+
+end aadsites
 
 end PqModel.Props.FactsCheckC18
